@@ -100,6 +100,24 @@ def run(prop, cfg, tier, seed):
         for v in extra:
             sr.oracle_viol.append(v)
 
+    # ---- tool streams tied to this property (e.g. pvlower: what builder.go emits for a grammar, read back and run
+    # on the real runtime, against the reference evaluation of the AST)
+    tool_reports = {}
+    tool_fail = []
+    for (tool, nq, nt, extra) in cfg.get("tools", []):
+        from . import tool_check
+        n = nq if tier == "quick" else nt
+        r = tool_check.run_tool(tool, seed, n, extra, pigeon=False)
+        tool_reports[tool] = {k: r.get(k) for k in ("evaluations", "distinct_nontrivial", "failure_count", "failures_by_kind", "wall_s", "stats")}
+        for f in (r.get("failures") or []):
+            f = tool_check.keep_failure_file(prop, dict(f))
+            f["tool"] = tool
+            f["replay_cmd"] = "/verif/build/bin/%s -seed %d -n %d %s" % (tool, seed, n, " ".join(extra))
+            tool_fail.append(f)
+        tool_fail_total = r.get("failure_count", 0)
+        if tool_fail_total > len(r.get("failures") or []):
+            tool_fail += [None] * (tool_fail_total - len(r["failures"]))
+
     # ---- report
     nviol = 0
     printed = []
@@ -167,12 +185,21 @@ def run(prop, cfg, tier, seed):
         cl, il, why = sr.known_samples[uid]
         sr.oracle_viol.append((cl, il, "", "defect class %s (%s) is not a listed known finding of %s" % (uid, why, prop)))
 
+    for f in tool_fail:
+        nviol += 1
+        if f is None or nviol > 3:
+            continue
+        k0 = str(f.get("kind", "failure")).replace("/", "_")
+        f.update({"property": prop, "kind": "%s/%s" % (f["tool"], k0),
+                  "property_fails_on_impl": [f.get("detail") or f.get("kind") or "failure"]})
+        name = "%s_%s_%s" % (f["tool"], k0, hashlib.md5(json.dumps(f, sort_keys=True, default=str).encode()).hexdigest()[:10])
+        printed.append("VIOLATION property=%s replay=%s" % (prop, core.write_replay(prop, name, f)))
     # oracle violations first: they carry a concrete failing input
     for d in sr.oracle_viol[:3]:
         report("oracle", d[0], d[1], d[2], d[3], d[4] if len(d) > 4 else None)
     for d in sr.disagree[:max(1, 3 - len(sr.oracle_viol))]:
         report("correspondence", d[0], d[1], d[2], d[3])
-    nviol = max(nviol, (0 if lean_ok else 1) + len(sr.oracle_viol) + len(sr.disagree))
+    nviol = max(nviol, (0 if lean_ok else 1) + len(sr.oracle_viol) + len(sr.disagree) + len(tool_fail))
 
     # ---- evidence
     wall = time.time() - t0
@@ -200,6 +227,10 @@ def run(prop, cfg, tier, seed):
         "samples": sr.samples,
         "explanation": cfg.get("explanation", ""),
     }
+    if tool_reports:
+        cov["tool_reports"] = tool_reports
+        cov["evaluations"] += sum(r.get("evaluations") or 0 for r in tool_reports.values())
+        cov["distinct_nontrivial"] += sum(r.get("distinct_nontrivial") or 0 for r in tool_reports.values())
     if "leanchecker" in audit:
         cov["leanchecker"] = audit["leanchecker"]
     core.write_evidence(prop, tier, seed, cfg.get("level", "proof"), cov, cfg.get("assumptions", []) + [
